@@ -229,9 +229,16 @@ func execC08(c c08Case) Outcome {
 			} else {
 				fmt.Fprintln(aw, "this is not an audit record")
 			}
-			for i := 0; i < 3; i++ {
-				fmt.Fprintf(sw, "%d Accepted password for late%d from 1.2.3.4 port 22 ssh2\n", 7000+i, i)
-				time.Sleep(time.Duration(c.DelayMs/3) * time.Millisecond)
+			// keep logging in for a while: the first login after the correlator has
+			// stopped finds nobody to hand over to (a correct daemon is gone by then
+			// and the writes simply fail)
+			for i := 0; i < 30; i++ {
+				if _, err := fmt.Fprintf(sw, "%d Accepted password for late%d from 1.2.3.4 port 22 ssh2\n", 7000+i, i); err != nil {
+					break
+				}
+				if _, ok := d.waitExit(40 * time.Millisecond); ok {
+					break
+				}
 			}
 		case "malformed_audit_huge":
 			// an unparsable line longer than any internal buffer
